@@ -1,9 +1,34 @@
 import Tahoe.Web.Lemmas
+import Tahoe.Web.LemmasHandler
 /-! C40 — Web API byte-range downloads follow RFC 7233 (property theorems; helper lemmas are in
-`Tahoe/Web/Lemmas.lean`, the grammar used in the statements in `Tahoe/Web/Grammar.lean`).
+`Tahoe/Web/Lemmas.lean` and `Tahoe/Web/LemmasHandler.lean`, the grammar used in the statements in
+`Tahoe/Web/Grammar.lean`, the models in `Tahoe/Web/Range.lean` (`FileDownloader.parse_range_header`,
+`FileDownloader.render`) and `Tahoe/Web/Handler.lean` (`FileNodeHandler.render_GET` / `render_HEAD`)).
 
-`render .fixed` is the model of `FileDownloader.render` with fixes/C40-range-edges.diff applied;
-`render .asIs` is the code as it is, for which two counterexamples are proved below. -/
+`render .fixed` is the model of the code as it now is in /repo (fixes/C40-range-edges.diff and
+fixes/C40-head-etag.diff are committed there); `render .asIs` is `FileDownloader` before the range fix,
+for which two counterexamples are kept below.
+
+## Coverage of the statement
+
+| clause of the statement (properties.jsonl C40)                         | theorem(s) on the model |
+|---|---|
+| "for any file size and range" / single byte-range header (RFC grammar, numerals = any non-empty digit strings, any file) | quantification of every theorem below: `file : Bytes`, `f l n : Num` unbounded |
+| 206 with exactly the requested bytes clipped at end-of-file            | `closed_range_206`, `open_range_206`, `suffix_range_206` (body = `slice file first (min last (size-1))`, length lemma included) |
+| ... and a matching Content-Range (and Content-Length = length of the body)        | same three theorems; for *every* header string, grammar or not: `every_206_wellformed` |
+| 416 when the range starts at or beyond the end                         | `beyond_end_416` (`first-last` and `first-`); recorded reading: suffix of length 0 / suffix on an empty file is ignored → `suffix_zero_or_empty_full` |
+| the full file when the header cannot be parsed                         | `unparsed_full` (whatever `parse_range_header` rejects), and concretely `inverted_range_full`, `unknown_unit_full`, `no_equals_full` |
+| HEAD returns the same status and headers without a body                | `head_is_get_without_body` (model of `render_GET`/`render_HEAD`: status, ETag, Content-Range, Content-Length), `head_same_headers_no_body` (`FileDownloader.render` alone) |
+| (multi-range: first range only — RFC permits a subset; outside "single") | `multi_range_first_only` |
+| ETag / If-None-Match (as far as "same status and headers" goes)        | `if_none_match_hit_304`, `if_none_match_miss_ignored`, `handler_is_downloader` |
+| "for literal, immutable and mutable files" (quantifier)                | the handler model is parametric in `NodeInfo` (mutable?, storage index?); that CHK / SDMF / MDMF / LIT nodes deliver `file[first..first+size)` from `read(consumer, first, size)` is *correspondence only* (routed GET/HEAD through Site/Root on the in-process grid) — the download paths themselves are C03/C46/C11 territory |
+| Accept-Ranges, Content-Type equal on HEAD and GET                      | monitor only (routed path) |
+| the code before the fixes violates the statement                       | `asIs_suffix_on_empty_counterexample`, `asIs_open_range_at_end_counterexample` |
+
+Hypotheses that exclude inputs: the grammar theorems take headers `bytes=` + one spec built from digit
+lists; headers outside the grammar are covered by `every_206_wellformed` / `unparsed_full` (any string)
+and by the examples with lenient numerals (`+0_1`, inner spaces). Non-ASCII header bytes are outside
+the model (correspondence sends ASCII only). -/
 namespace Tahoe.C40
 open Tahoe.Web
 
@@ -220,5 +245,77 @@ theorem asIs_suffix_on_empty_counterexample :
 file instead of 416 -/
 theorem asIs_open_range_at_end_counterexample :
     render .asIs [10, 11, 12] false (some "bytes=3-".toList) = ⟨200, none, 3, [10, 11, 12]⟩ := by decide
+
+/-! ### `FileNodeHandler.render_GET` / `render_HEAD` (ETag, If-None-Match, then the range logic) -/
+
+/-- HEAD returns the same status and headers as GET, without a body: for every node (literal /
+immutable / mutable), file, `If-None-Match` and `Range` header, and both model variants, the answer of
+`render_HEAD` is the answer of `render_GET` with the body removed (ETag included). -/
+theorem head_is_get_without_body (v : Variant) (n : NodeInfo) (file : Bytes) (inm range : Option Str) :
+    renderHEAD v n file inm range = { renderGET v n file inm range with body := [] } := by
+  rw [renderGET_eq, renderHEAD_eq]
+  cases etagOf n with
+  | none => simp only [render_head_eq, ofResp_head]
+  | some e =>
+    simp only
+    split
+    · rfl
+    · simp only [render_head_eq, ofResp_head]
+
+example : renderGET .fixed ⟨false, some "abc".toList⟩ [10, 11, 12, 13] none (some "bytes=1-2".toList)
+      = ⟨206, some "abc-".toList, some (1, 2, 4), some 2, [11, 12]⟩
+    ∧ renderHEAD .fixed ⟨false, some "abc".toList⟩ [10, 11, 12, 13] none (some "bytes=1-2".toList)
+      = ⟨206, some "abc-".toList, some (1, 2, 4), some 2, []⟩ := by decide
+
+/-- a conditional request that names the file's ETag (or `*`) is answered 304 with the ETag and no
+body, by GET and HEAD alike, whatever the Range header -/
+theorem if_none_match_hit_304 (v : Variant) (n : NodeInfo) (file : Bytes) (t : Str) (range : Option Str)
+    (e : Str) (he : etagOf n = some e) (hne : t ≠ [])
+    (hit : e ∈ splitWs t ∨ ['*'] ∈ splitWs t) :
+    renderGET v n file (some t) range = ⟨304, some e, none, none, []⟩
+    ∧ renderHEAD v n file (some t) range = ⟨304, some e, none, none, []⟩ := by
+  have hc : setETagCached e (some t) = true := by
+    have : t.isEmpty = false := by cases t <;> simp_all
+    simp only [setETagCached, this, Bool.false_eq_true, ↓reduceIte, Bool.or_eq_true, List.contains_iff_mem]
+    exact hit
+  rw [renderGET_eq, renderHEAD_eq, he]
+  simp [hc, cached]
+
+example : renderGET .fixed ⟨false, some "abc".toList⟩ [10, 11] (some "x  abc-\ty".toList) (some "bytes=0-0".toList)
+      = ⟨304, some "abc-".toList, none, none, []⟩ := by decide
+
+/-- a conditional request whose tags do not name the ETag, and any `If-None-Match` on a node without
+an ETag (mutable, literal), is answered as if the header were absent -/
+theorem if_none_match_miss_ignored (v : Variant) (n : NodeInfo) (file : Bytes) (t : Str) (range : Option Str)
+    (miss : ∀ e, etagOf n = some e → e ∉ splitWs t ∧ ['*'] ∉ splitWs t) :
+    renderGET v n file (some t) range = renderGET v n file none range
+    ∧ renderHEAD v n file (some t) range = renderHEAD v n file none range := by
+  rw [renderGET_eq, renderHEAD_eq, renderGET_eq, renderHEAD_eq]
+  cases he : etagOf n with
+  | none => simp
+  | some e =>
+    have := miss e he
+    have hc : setETagCached e (some t) = false := by
+      simp only [setETagCached]
+      split
+      · rfl
+      · simp [this.1, this.2]
+    have hn : setETagCached e none = false := rfl
+    simp only [hc, hn]
+    simp
+
+example : renderGET .fixed ⟨true, some "abc".toList⟩ [10, 11] (some "*".toList) none
+      = ⟨200, none, none, some 2, [10, 11]⟩
+    ∧ renderGET .fixed ⟨false, none⟩ [10, 11] (some "*".toList) none = ⟨200, none, none, some 2, [10, 11]⟩
+    ∧ renderGET .fixed ⟨false, some "abc".toList⟩ [10, 11] (some "\"abc-\"".toList) none
+      = ⟨200, some "abc-".toList, none, some 2, [10, 11]⟩ := by decide
+
+/-- without a matching `If-None-Match` the handler's answer is the `FileDownloader` answer (the range
+theorems above) plus the ETag: status, Content-Range, Content-Length and body are those of `render` -/
+theorem handler_is_downloader (v : Variant) (n : NodeInfo) (file : Bytes) (range : Option Str) :
+    renderGET v n file none range = ofResp (etagOf n) (render v file false range)
+    ∧ renderHEAD v n file none range = ofResp (etagOf n) (render v file true range) := by
+  rw [renderGET_eq, renderHEAD_eq]
+  cases etagOf n <;> simp [setETagCached]
 
 end Tahoe.C40
